@@ -196,6 +196,34 @@ theorem rule_ignored_dropped (t : CatTable) (st : St) (p : Bool) (c : Nat) (rest
 
 example : tokenize defaultCats [94, 94, 77, 0, 97] = [.ch 11 97] := by decide +kernel
 
+/-! ## lazy pulling and category changes between pulls -/
+
+/-- Pulling tokens one at a time and tokenizing the whole input give the same stream as long as
+    the table is not changed: a schedule of pulls without table operations is `tokFrom`. -/
+theorem dynRun_without_changes (t : CatTable) (sched : List Nat) :
+    ∀ (st : St) (p : Bool) (cs : List Nat),
+      dynRun t st p cs (sched.map fun n => ([], n)) = tokFrom t st p cs := by
+  induction sched with
+  | nil => intro st p cs; rfl
+  | cons n sched ih =>
+    intro st p cs
+    simp only [List.map_cons, dynRun, List.foldl_nil]
+    rw [ih]
+    exact pullN_tokFrom t n st p cs
+
+/-- A `\catcode` change made by the consumer after `n` tokens affects exactly the input not yet
+    consumed by those `n` pulls: the stream is the `n` tokens under the old table followed by the
+    tokenization, under the new table, of the state the `n`-th pull left. -/
+theorem catcode_change_takes_effect_at_next_pull (t : CatTable) (ops : List CatOp) (n : Nat)
+    (st : St) (p : Bool) (cs : List Nat) :
+    dynRun t st p cs [([], n), (ops, 0)] =
+      (pullN t n st p cs).1 ++
+        tokFrom (ops.foldl applyCatOp t) (pullN t n st p cs).2.1 (pullN t n st p cs).2.2.1 (pullN t n st p cs).2.2.2 := by
+  simp [dynRun, pullN]
+
+example : dynRun defaultCats .N false [33, 33, 33] [([], 1), ([.set 33 11], 0)]
+    = [.ch 12 33, .ch 11 33, .ch 11 33] := by decide +kernel
+
 /-! ## the verbatim table: one token per character (used by C11) -/
 
 theorem verbatim_identity (s : List Nat) :
